@@ -99,7 +99,7 @@ def run_tlc_exec(gjson, mode, n, seed, maxlose=1, impure=0, timeout=240):
         m = re.search(r"(\d+) states checked", out)
         if m:
             res["generated"] = res["states"] = int(m.group(1))
-    m = re.search(r"Invariant (\w+) is violated", out)
+    m = re.search(r"Invariant (\w+) is violated", out) or re.search(r"The invariant of (\w+) is equal to FALSE", out)
     if m:
         res["violated"] = m.group(1)
     for mm in re.finditer(r'<<\s*"SCHED"', out):
